@@ -21,6 +21,8 @@ pub mod logs;
 pub mod ebpf;
 #[path = "agent/keeper.rs"]
 pub mod keeper;
+#[path = "agent/kernel.rs"]
+pub mod kernel;
 
 pub fn main() {
     let engine = std::env::var("VERIF_ENGINE").unwrap_or_default();
@@ -34,6 +36,7 @@ pub fn main() {
         "logs" => logs::run(),
         "ebpf" => ebpf::run(),
         "keeper" => keeper::run(),
+        "kernel" => kernel::run(),
         _ => {
             eprintln!("unknown engine {:?}", engine);
             std::process::exit(2);
